@@ -21,6 +21,8 @@ type Settings struct {
 	IgnoreUnexported bool   `json:"ignoreUnexported,omitempty"`
 	MatchIgnoreCase  bool   `json:"matchIgnoreCase,omitempty"`
 	UseUnderlying    bool   `json:"useUnderlying,omitempty"`
+	Wrap             string `json:"wrap,omitempty"` // "" | errors | using (no influence on convertibility)
+	WrapPkg          string `json:"wrapPkg,omitempty"`
 }
 
 // Lines renders the settings as directive lines (without prefix).
@@ -49,6 +51,12 @@ func (s Settings) Lines() []string {
 	}
 	if s.UseUnderlying {
 		l = append(l, "useUnderlyingTypeMethods")
+	}
+	switch s.Wrap {
+	case "errors":
+		l = append(l, "wrapErrors")
+	case "using":
+		l = append(l, "wrapErrorsUsing "+s.WrapPkg)
 	}
 	return l
 }
@@ -82,6 +90,8 @@ type Method struct {
 	AutoMap  []string             `json:"autoMap,omitempty"`
 	EnumMap  map[string]string    `json:"enumMap,omitempty"`
 	Default  *Func                `json:"default,omitempty"`
+	// Roles of the declared parameters in order: source | context | target
+	Roles []string `json:"roles,omitempty"`
 	// FieldLines counts further method-level lines goverter treats as field settings
 	// (ignoreMissing, ignoreUnexported, matchIgnoreCase, update:ignoreZeroValueField).
 	FieldLines int `json:"fieldLines,omitempty"`
